@@ -541,7 +541,28 @@ pub fn main() {
         let mut cat = infra!(c, CatFile::new(&git), "cat-file --batch");
         let mut reuse: Vec<u8> = vec![0xAA; 100];
         for (o, (hex_id, id)) in objs.iter().zip(&ids) {
-            let got = infra!(c, cat.get(hex_id), "cat-file");
+            let got = match cat.get(hex_id) {
+                Ok(g) => g,
+                Err(e) => {
+                    // `cat-file --batch` died: is it this object? ask a fresh git process
+                    let (ok, _out, err) = infra!(c, git.try_run(["cat-file", kind_name(o.kind), hex_id.as_str()], None), "git cat-file");
+                    if !ok && o.writer != Writer::Git {
+                        c.fail_sig(
+                            "git-cannot-read",
+                            format!(
+                                "object {hex_id} written by {:?} ({} of {} bytes) makes git fail: {}",
+                                o.writer,
+                                kind_name(o.kind),
+                                o.body.len(),
+                                String::from_utf8_lossy(&err).trim()
+                            ),
+                        );
+                    } else {
+                        c.infra(format!("cat-file --batch: {e}"));
+                    }
+                    return;
+                }
+            };
             match got {
                 Some((k, bytes)) => {
                     ensure_sig!(
@@ -610,6 +631,7 @@ pub fn main() {
         ensure_sig!(c, "stray-files", stray.is_empty(), "unexpected files left in the objects directory: {stray:?}");
 
         // ---- truncations
+        let mut deferred: Option<String> = None;
         let mut n = 0;
         for (o, (hex_id, id)) in objs.iter().zip(&ids) {
             if o.cuts.is_empty() {
@@ -648,11 +670,11 @@ pub fn main() {
                         if same && git_reads_it {
                             // both tolerate it
                         } else if same {
-                            c.fail_sig(
-                                "truncated-stream-accepted",
-                                format!("{desc}: try_find succeeds (complete content although the zlib stream is cut short); git refuses the file"),
-                            );
-                            return;
+                            // reported at the end of the case so that everything else in the case is still evaluated
+                            c.label("stream-tail-cut-accepted");
+                            deferred.get_or_insert_with(|| {
+                                format!("{desc}: try_find succeeds (complete content although the zlib stream is cut short); git refuses the file")
+                            });
                         } else {
                             c.fail_sig(
                                 "truncated-returns-content",
@@ -681,6 +703,9 @@ pub fn main() {
                     }
                 }
             }
+        }
+        if let Some(msg) = deferred {
+            c.fail_sig("truncated-stream-accepted", msg);
         }
     });
 
